@@ -93,6 +93,36 @@ def gen_cmp(rng, cname, e):
     return {"op": op, "e": e, "col": col, "v": v}
 
 
+KWV = {"x": [0, 1, 2, 3, 5], "grp": [0, 1, 2], "pos": [0, 1, 2, 3], "q": [0, 1, 2, 7], "level": [1, 2]}
+
+
+def gen_kw(rng, tcls):
+    cols = list(COLS[tcls])
+    rng.shuffle(cols)
+    kw = {}
+    for col, ty in cols[: rng.randint(1, 3)]:
+        kw[col] = rng.choice(KWV[col]) if ty == "int" else rng.choice(STRV[col])
+    return kw
+
+
+def m2m_pred(zoo, rng, pop, cls):
+    """A predicate on entity 0 that goes through its many-to-many relationship."""
+    rel = "tags" if cls == "A" else "owners"
+    t = zoo.rel(cls, rel).target
+    r = rng.random()
+    if r < 0.2:
+        p = {"op": rng.choice(["empty", "nonempty"]), "e": 0, "rel": rel}
+    elif r < 0.4:
+        p = {"op": "any", "e": 0, "rel": rel, "inner": None, "kw": gen_kw(rng, t)}
+    elif r < 0.5:
+        p = {"op": "any", "e": 0, "rel": rel, "inner": None}
+    else:
+        p = {"op": "any", "e": 0, "rel": rel, "inner": gen_pred(zoo, rng, [{"cls": t}], pop, 2, allow_rel=False)}
+    if rng.random() < 0.35:
+        p = {"op": "not", "args": [p]}
+    return p
+
+
 def gen_pred(zoo, rng, ents, pop, depth=0, allow_rel=True, conj=True):
     """Predicate over the entity list ``ents`` (dicts with "cls").  ``conj`` is True while
     the position is reachable from the top through AND only."""
@@ -111,9 +141,17 @@ def gen_pred(zoo, rng, ents, pop, depth=0, allow_rel=True, conj=True):
         ri = zoo.rel(fam(cname), rel)
         k = rng.random()
         tpk = [row["id"] for row in pop[TABLE[ri.target]]]
+        if k < 0.12 and ri.uselist:
+            # collection == None / != None
+            return {"op": rng.choice(["empty", "nonempty"]), "e": e, "rel": rel}
         if k < 0.5:
             inner = None
-            if rng.random() < 0.7:
+            r2 = rng.random()
+            if r2 < 0.3:
+                # keyword form any(col=v, ...) / has(col=v, ...): 1-3 keywords, no positional
+                return {"op": "has" if not ri.uselist else "any", "e": e, "rel": rel, "inner": None,
+                        "kw": gen_kw(rng, ri.target)}
+            if r2 < 0.85:
                 inner = gen_pred(zoo, rng, [{"cls": ri.target}], pop, 2, allow_rel=False)
             return {"op": "has" if not ri.uselist else "any", "e": e, "rel": rel, "inner": inner}
         # many-to-many contains() joins an alias of the association table into the main
@@ -211,7 +249,15 @@ def gen_desc(zoo, rng, pop):
                                     "col": rng.choice(ic) if ic else "id"}
                 if d["scalar_subq"]["func"] == "count":
                     d["scalar_subq"]["col"] = "id"
-    if len(ents) > 1 and rng.random() < 0.3 and all(it[1] == 0 for it in d["select"]) and not d["agg"]:
+    d["sec_join"] = None
+    if root in ("A", "T") and not ents[0].get("alias") and not d["root_src"] and rng.random() < 0.3:
+        # the user joins the association table itself (un-aliased) into the statement and
+        # filters through the many-to-many relationship at the same time
+        d["sec_join"] = {"select_col": rng.random() < 0.5 and not d["agg"]}
+        mp = m2m_pred(zoo, rng, pop, root)
+        d["where"] = mp if d["where"] is None else {"op": "and", "args": [mp, d["where"]]}
+    if (len(ents) > 1 and rng.random() < 0.3 and all(it[1] == 0 for it in d["select"]) and not d["agg"]
+            and not d["sec_join"]):
         # only items of the root entity are selected: the left-most FROM may be left to
         # inference (with several entities in the columns the ORM asks for select_from)
         d["select_from_last"] = True
@@ -255,6 +301,8 @@ def features(d, zoo):
         f.add("select_from")
     if d["with_parent"]:
         f.add("with_parent")
+    if d.get("sec_join"):
+        f.add("secondary-in-from")
 
     def walk(p):
         if p is None:
@@ -262,16 +310,18 @@ def features(d, zoo):
         if p["op"] in ("and", "or", "not"):
             for a in p["args"]:
                 walk(a)
-        elif p["op"] in ("any", "has", "contains", "eq_obj", "ne_obj", "exists", "in_subq"):
+        elif p["op"] in ("any", "has", "contains", "eq_obj", "ne_obj", "exists", "in_subq", "empty", "nonempty"):
             f.add(p["op"])
             f.add("relpred")
+            if p.get("kw"):
+                f.add("kwargs-%d" % len(p["kw"]))
 
     walk(d["where"])
     f.add("api-" + d["api"])
     return f
 
 
-PRIORITY = ["root-union", "root-union_all", "root-subq", "group_by", "scalar_subq", "with_parent", "of_type",
+PRIORITY = ["secondary-in-from", "kwargs-3", "kwargs-2", "kwargs-1", "empty", "nonempty", "root-union", "root-union_all", "root-subq", "group_by", "scalar_subq", "with_parent", "of_type",
             "self-join", "outerjoin", "join-m2m", "in_subq", "exists", "contains", "eq_obj", "ne_obj", "any",
             "has", "select_from", "distinct", "poly-root", "aliased", "join"]
 
@@ -333,7 +383,7 @@ class SqlTx:
             return f"(NOT {self.pred(p['args'][0], ents, aliases)})"
         e = p["e"]
         cls, al = ents[e]["cls"], aliases[e]
-        if op in ("any", "has", "exists", "in_subq", "contains", "eq_obj", "ne_obj"):
+        if op in ("any", "has", "exists", "in_subq", "contains", "eq_obj", "ne_obj", "empty", "nonempty"):
             ri = self.zoo.rel(fam(cls), p["rel"])
             if op in ("eq_obj", "ne_obj"):
                 c = f"{al}.{ri.fk_col}"
@@ -367,11 +417,13 @@ class SqlTx:
             inner = ""
             if p.get("inner") is not None:
                 inner = " AND " + self.pred(p["inner"], [{"cls": tcls}], [s])
+            for col in sorted(p.get("kw") or {}):
+                inner += f" AND {self.col(tcls, s, col)} = {self.lit(p['kw'][col])}"
             if op == "in_subq":
                 neg = "NOT " if p["neg"] else ""
                 return (f"{al}.id {neg}IN (SELECT {s}.{ri.fk_col} FROM {frm} WHERE 1 = 1{inner})")
             ex = f"EXISTS (SELECT 1 FROM {frm} WHERE {cond}{inner})"
-            if op == "exists" and p["neg"]:
+            if (op == "exists" and p["neg"]) or op == "empty":
                 return f"(NOT {ex})"
             return ex
         c = self.col(cls, al, p["col"])
@@ -411,6 +463,12 @@ class SqlTx:
             frm, extra = self.table_expr(root, "t0")
             if extra:
                 where.append(extra)
+        sec_alias = None
+        if d.get("sec_join"):
+            rel = "tags" if root == "A" else "owners"
+            sec, lc, rc = zoo.rel(root, rel).secondary
+            sec_alias = "xs"
+            frm += f" JOIN {sec} AS xs ON xs.{lc} = t0.id"
         for j, en in enumerate(ents[1:], 1):
             i, rel = en["via"]
             ri = zoo.rel(fam(ents[i]["cls"]), rel)
@@ -450,6 +508,10 @@ class SqlTx:
                 i, c = item[1], item[2]
                 cols.append(self.col(ents[i]["cls"], aliases[i], c))
                 shape.append(("val",))
+        if sec_alias and d["sec_join"]["select_col"]:
+            rel = "tags" if root == "A" else "owners"
+            cols.append(f"xs.{zoo.rel(root, rel).secondary[2]}")
+            shape.append(("val",))
         group = having = ""
         if d["agg"]:
             a = d["agg"]
@@ -522,9 +584,14 @@ class OrmTx:
         e = p["e"]
         ent = oents[e]
         cls = ents[e]["cls"]
+        if op in ("empty", "nonempty"):
+            attr = getattr(ent, p["rel"])
+            return attr == None if op == "empty" else attr != None  # noqa: E711
         if op in ("any", "has"):
             attr = getattr(ent, p["rel"])
             ri = self.zoo.rel(fam(cls), p["rel"])
+            if p.get("kw"):
+                return getattr(attr, op)(**p["kw"])
             if p["inner"] is None:
                 return getattr(attr, op)()
             tcls = self.zoo.cls[ri.target]
@@ -547,7 +614,9 @@ class OrmTx:
                 return ent.id.not_in(sub) if p["neg"] else ent.id.in_(sub)
             # explicit EXISTS, correlated through the relationship's join condition
             if ri.direction == "m2m":
-                sec = self.zoo.tables[ri.secondary[0]]
+                # (aliased: a plain Core EXISTS over the bare association table would
+                # auto-correlate to an outer FROM that contains it)
+                sec = self.zoo.tables[ri.secondary[0]].alias()
                 ex = sa.exists().where(sec.c[ri.secondary[1]] == ent.id, sec.c[ri.secondary[2]] == t.id, inner)
             elif ri.direction == "m2o":
                 ex = sa.exists().where(t.id == getattr(ent, ri.fk_col), inner)
@@ -583,6 +652,13 @@ class OrmTx:
                 sel.append(oents[item[1]])
             else:
                 sel.append(getattr(oents[item[1]], item[2]))
+        sec_t = None
+        if d.get("sec_join"):
+            rel = "tags" if ents[0]["cls"] == "A" else "owners"
+            sec, lc, rc = zoo.rel(ents[0]["cls"], rel).secondary
+            sec_t = zoo.tables[sec]
+            if d["sec_join"]["select_col"]:
+                sel.append(sec_t.c[rc])
         aggs = []
         if d["agg"]:
             for fn, j, c in d["agg"]["funcs"]:
@@ -598,10 +674,14 @@ class OrmTx:
             sel.append(sub)
         legacy = d["api"] == "query"
         stmt = self.s.query(*sel) if legacy else sa.select(*sel)
-        if len(ents) > 1 and not d["select_from_last"]:
+        if (len(ents) > 1 or sec_t is not None) and not d["select_from_last"]:
             # the left-most FROM is stated, except (select_from_last) when every selected
             # item belongs to the root entity, where it is left to inference
             stmt = stmt.select_from(oents[0])
+        if sec_t is not None:
+            rel = "tags" if ents[0]["cls"] == "A" else "owners"
+            lc = zoo.rel(ents[0]["cls"], rel).secondary[1]
+            stmt = stmt.join(sec_t, sec_t.c[lc] == oents[0].id)
         for j, en in enumerate(ents[1:], 1):
             i, rel = en["via"]
             attr = getattr(oents[i], rel)
@@ -707,7 +787,8 @@ def one_query(ctx, sa, orm, R, zoo, engine, raw, d, origin):
         try:
             if legacy:
                 rows = list(stmt)   # legacy Query iteration
-                single = len(d["select"]) == 1 and not d["agg"] and not d["scalar_subq"] and d["select"][0][0] == "ent"
+                single = (len(d["select"]) == 1 and not d["agg"] and not d["scalar_subq"] and d["select"][0][0] == "ent"
+                          and not (d.get("sec_join") and d["sec_join"]["select_col"]))
                 got = [(r,) for r in rows] if single else [tuple(r) for r in rows]
             else:
                 got = [tuple(r) for r in s.execute(stmt)]
